@@ -708,6 +708,22 @@ def run_save(doc, log):
     if not np.array_equal(np.asarray(back1.point_data.get("Temperature")).ravel(), extra_p):
         raise Violation(PROP, "save-fidelity", "second save() with the caller's dictionary re-used: additional point data changed", site="save.extra-data[dict-reused]")
     log.count("save-dict-reused")
+    # no dictionary of the caller at all: a state saved with forces, then a state saved without - the
+    # second file holds what was given for it and nothing of the first
+    try:
+        fem.save(region, field, forces=rng.normal(size=field[0].values.size), filename=f"with-forces.{o['format']}")
+        field[0].values[:] = 0.5 * u0
+        fem.save(region, field, filename=f"plain.{o['format']}")
+        back2 = meshio.read(f"plain.{o['format']}")
+        extra_keys = sorted(k_ for k_ in back2.point_data if k_ not in ("Displacements",))
+        if extra_keys:
+            raise Violation(PROP, "save-fidelity", f"save() without forces / gradient / point_data wrote point data that were not given for this call: {extra_keys}", site="save.leftover-point-data")
+        got = back2.point_data.get("Displacements")
+        if got is None or not np.array_equal(np.asarray(got)[:, : m.dim], 0.5 * u0):
+            raise Violation(PROP, "save-fidelity", "save() without forces after a save() with forces: displacements differ from the field values", site="save.displacements[after-forces]")
+        log.count("save-after-save-with-forces")
+    except meshio.WriteError:
+        pass  # legacy VTK cannot carry 'Reaction Force'
     return {"signature": f"save|{m.cell_type}|{o['format']}|{forces is not None}", "nontrivial": True}
 
 
